@@ -1,0 +1,6 @@
+//go:build !verif
+
+package randstr
+
+// verifNext is a hook of the verification harness; without the verif build tag it never overrides.
+func verifNext(_ int) (string, bool) { return "", false }
